@@ -249,6 +249,10 @@ func (l *errLatch) Write(p []byte) (int, error) {
 		return 0, l.err
 	}
 	n, err := l.w.Write(p)
+	if err == nil && n < len(p) {
+		// a writer that takes fewer bytes without saying why
+		err = io.ErrShortWrite
+	}
 	if err != nil {
 		l.err = err
 	}
